@@ -81,7 +81,7 @@ def run(ctx):
     jobs = []
     for i, c in enumerate(cases):
         n = 0
-        if c['id'] in ('P5', 'P6'):
+        if c['id'] in ('P5', 'P6', 'P8'):
             continue                # P5: classes that share a type name across namespaces: dict documents cannot tell them apart; P6: SOAP headers
         for fam in c02.FAMS:
             for validator in (None, 'soft'):
